@@ -168,7 +168,7 @@ class _Ret(Exception):
         self.v = v
 
 
-def _eval_stmt(fn, stmt, env, leaf_base):
+def _eval_stmt(fn, stmt, env, leaf_base, hooks=None):
     """evaluates a loop-free statement over an environment of locals (did -> value): compound statements, if statements, declarations,
     assignments to locals and `return <expr>` (raises _Ret); expressions are folded with lib/exprfold.py"""
     x = fn.e(stmt)
@@ -187,24 +187,33 @@ def _eval_stmt(fn, stmt, env, leaf_base):
     k = x["k"]
     if k == "s:CompoundStmt":
         for c in x.get("ch", []):
-            _eval_stmt(fn, c, env, leaf_base)
+            _eval_stmt(fn, c, env, leaf_base, hooks)
     elif k == "s:IfStmt":
         rest = [c for c in x.get("ch", []) if c != x["cond"]]
         if fold(x["cond"]):
             if rest:
-                _eval_stmt(fn, rest[0], env, leaf_base)
+                _eval_stmt(fn, rest[0], env, leaf_base, hooks)
         elif len(rest) > 1:
-            _eval_stmt(fn, rest[1], env, leaf_base)
+            _eval_stmt(fn, rest[1], env, leaf_base, hooks)
     elif k == "decl":
         for v in x["vars"]:
             if v.get("init") is not None:
                 env[v["did"]] = fold(v["init"])
     elif k == "return":
         raise _Ret(fold(x["val"]) if x.get("val") is not None else None)
+    elif k == "goto":
+        raise _Ret(("goto", x.get("label")))
+    elif k in ("mcall", "call") and hooks is not None and x.get("cn") in hooks:
+        hooks[x["cn"]]([fold(a) for a in x.get("args", [])])
     elif k == "binop" and x["op"] == "=":
         l = fn.e(fn.strip(x["lhs"]))
         if l is not None and l["k"] == "ref" and l.get("dk") == "local":
-            env[l["did"]] = fold(x["rhs"])
+            try:
+                env[l["did"]] = fold(x["rhs"])
+            except Unknown:
+                if hooks is None:
+                    raise
+                env.pop(l["did"], None)       # a pointer / object local that the decision does not depend on
         else:
             raise Unknown()
     elif k == "binop" and x["op"] in ("<<=", ">>=", "|=", "&=", "+=", "-=", "*="):
